@@ -1418,9 +1418,9 @@ hwloc__distances_transform_merge_switch_ports(struct hwloc_distances_s *distance
       }
       values[i*nbobjs+i] += values[j*nbobjs+j];
       values[j*nbobjs+j] = 0;
+      /* the caller will also call REMOVE_NULL to remove other ports */
+      objs[j] = NULL;
     }
-    /* the caller will also call REMOVE_NULL to remove other ports */
-    objs[j] = NULL;
   }
 
   return 0;
